@@ -7,7 +7,6 @@ use wasm_bindgen::prelude::wasm_bindgen;
 use crate::{
     auto::generated::SupportedMnemonic,
     axecutor::Axecutor,
-    helpers::macros::assert_fatal,
     state::{hooks::HookResult, registers::SupportedRegister::*},
 };
 
@@ -147,24 +146,29 @@ impl Axecutor {
 
             debug_log!("Running native pipe syscall");
 
-            let read_end = rand::thread_rng().gen::<u16>() as u64 + 1024;
-            let write_end = rand::thread_rng().gen::<u16>() as u64 + 1024;
-            assert_fatal!(
-                !ax.state.syscalls.pipes_read_ends.contains_key(&read_end),
-                "Duplicate read end for pipe"
-            );
-            assert_fatal!(
-                !ax.state.syscalls.pipes_write_ends.contains_key(&read_end),
-                "Duplicate read end for pipe"
-            );
-            assert_fatal!(
-                !ax.state.syscalls.pipes_read_ends.contains_key(&write_end),
-                "Duplicate write end for pipe"
-            );
-            assert_fatal!(
-                !ax.state.syscalls.pipes_write_ends.contains_key(&write_end),
-                "Duplicate write end for pipe"
-            );
+            // Descriptor numbers are drawn at random from 1024..=66559. A number that is already in use (or the
+            // same number for both ends) is drawn again, so that pipe() does not fail at random; the number of
+            // pipes is bounded so that free numbers always remain.
+            if ax.state.syscalls.pipes_read_ends.len() >= 0x4000 {
+                return Err(AxError::from("pipe: too many open pipes").into());
+            }
+            let in_use = |ax: &Axecutor, fd: u64| {
+                ax.state.syscalls.pipes_read_ends.contains_key(&fd)
+                    || ax.state.syscalls.pipes_write_ends.contains_key(&fd)
+            };
+            let mut rng = rand::thread_rng();
+            let read_end = loop {
+                let fd = rng.gen::<u16>() as u64 + 1024;
+                if !in_use(ax, fd) {
+                    break fd;
+                }
+            };
+            let write_end = loop {
+                let fd = rng.gen::<u16>() as u64 + 1024;
+                if fd != read_end && !in_use(ax, fd) {
+                    break fd;
+                }
+            };
 
             ax.state
                 .syscalls
